@@ -555,8 +555,10 @@ def judge_files(chk, efs, run, drv, work, rng, perms_spec=None, cli=True):
         # --- specification: does it open, which flags, which key, which permissions
         if should_open:
             if not im["ok"]:
+                # a structural failure (not the password error) in a file of a known-finding class: object streams run through the wrong cipher
+                sig0 = open_signature(ef, role, pw) or (first_sig(ef) if im.get("code") != "password" else "")
                 chk.violation({"kind": "property-fails-on-implementation", "part": "files", "what": "a valid password / the file key does not open the file",
-                               "case": describe(ef, role, pw), "implementation": im.get("raw"), "model": mo[:300]}, signature=open_signature(ef, role, pw))
+                               "case": describe(ef, role, pw), "implementation": im.get("raw"), "model": mo[:300]}, signature=sig0)
             else:
                 bad = []
                 if im["key"] != hexs(ef.key):
@@ -574,6 +576,8 @@ def judge_files(chk, efs, run, drv, work, rng, perms_spec=None, cli=True):
                     sig = ""
                     if len(bad) == 1 and bad[0].startswith("flags") and ef.V < 5 and len(pw) > 32:
                         sig = SIG_PREFIX + "v4-long-password-user-flag"
+                    if len(bad) == 1 and bad[0].startswith("flags") and ef.V == 2 and ef.kl < 16 and ov and im["om"] == "0":
+                        sig = SIG_PREFIX + "r3-short-key-owner-password"
                     chk.violation({"kind": "property-fails-on-implementation", "part": "files", "what": "; ".join(bad), "case": describe(ef, role, pw),
                                    "implementation": {k: v for k, v in im.items() if k != "leaves"}, "model": mo[:400]}, signature=sig)
         else:
@@ -595,7 +599,8 @@ def judge_files(chk, efs, run, drv, work, rng, perms_spec=None, cli=True):
         else:
             got = "err " + im.get("code", "?")
             mod = " ".join(mf[:2])
-        if got != mod:
+        if got != mod and not (not im["ok"] and im.get("code") not in ("password", "unsupported") and first_sig(ef)):
+            # (a file of a known-finding class that cannot even be parsed is outside what the model of initialize() describes)
             tie.append((describe(ef, role, pw), got, mod))
         nontrivial.add((ef.plan["scheme"], ef.plan.get("stm"), ef.plan.get("str"), ef.plan["layout"], role, im["ok"]))
     if tie:
@@ -745,7 +750,7 @@ def cli_part(chk, efs, run, drv, work, rng):
             enc = role != "plainfile"
             want = int(run(["c6exit %s %d %d" % ("p" if kind == "requires" else "e", 1 if enc else 0, 1 if valid else 0)])[0])
             if rc != want:
-                bad("exit status %d, the manual says %d" % (rc, want), signature=sig)
+                bad("exit status %d, the manual says %d" % (rc, want), signature=sig or (first_sig(ef) if (rc == 2 and err and "invalid password" not in err) else ""))
             if so or (se and enc and valid):
                 pass
             exit_lines.append(("c6job %s %s 0" % ("p" if kind == "requires" else "e", "none" if not enc else ("ok:0" if rc in (3,) or (kind == "isenc" and valid) else "err:password")), rc))
@@ -772,6 +777,10 @@ def cli_part(chk, efs, run, drv, work, rng):
                     s2 = sig
                     if not s2 and len(probs) == 1 and probs[0].startswith("reports [") and ef.V < 5 and len(pw) > 32:
                         s2 = SIG_PREFIX + "v4-long-password-user-flag"
+                    if not s2 and len(probs) == 1 and probs[0].startswith("reports [") and ef.V == 2 and ef.kl < 16 and ov and "owner" not in sh.get("flags", []):
+                        s2 = SIG_PREFIX + "r3-short-key-owner-password"
+                    if not s2 and rc == 2 and "invalid password" not in err:
+                        s2 = first_sig(ef)
                     bad("--show-encryption: " + "; ".join(probs), signature=s2, stdout=so.decode("latin-1")[:600])
             else:
                 if not sh.get("incorrect") or sh.get("flags"):
@@ -789,6 +798,8 @@ def cli_part(chk, efs, run, drv, work, rng):
         if rc not in (0, 3) or not exists:
             if not sig and kind in ("preserve", "copyenc") and ef.plan.get("length_style") == "absent" and ef.V in (2, 4):
                 sig = SIG_PREFIX + "preserve-without-length"
+            if not sig and "invalid password" not in err:
+                sig = first_sig(ef)
             bad("a valid password / the file key: exit %d, output %s" % (rc, "present" if exists else "absent"), signature=sig)
             continue
         if rc == 3 and not sig:
@@ -870,6 +881,23 @@ def cli_part(chk, efs, run, drv, work, rng):
     recovery_part(chk, efs, run, drv, work)
 
 
+PDFDOC = {0x18: 0x02D8, 0x19: 0x02C7, 0x1A: 0x02C6, 0x1B: 0x02D9, 0x1C: 0x02DD, 0x1D: 0x02DB, 0x1E: 0x02DA, 0x1F: 0x02DC,
+          0x80: 0x2022, 0x81: 0x2020, 0x82: 0x2021, 0x83: 0x2026, 0x84: 0x2014, 0x85: 0x2013, 0x86: 0x0192, 0x87: 0x2044, 0x88: 0x2039, 0x89: 0x203A,
+          0x8A: 0x2212, 0x8B: 0x2030, 0x8C: 0x201E, 0x8D: 0x201C, 0x8E: 0x201D, 0x8F: 0x2018, 0x90: 0x2019, 0x91: 0x201A, 0x92: 0x2122, 0x93: 0xFB01,
+          0x94: 0xFB02, 0x95: 0x0141, 0x96: 0x0152, 0x97: 0x0160, 0x98: 0x0178, 0x99: 0x017D, 0x9A: 0x0131, 0x9B: 0x0142, 0x9C: 0x0153, 0x9D: 0x0161,
+          0x9E: 0x017E, 0xA0: 0x20AC}
+
+
+def pdfdoc_text(b):
+    """PDFDocEncoding (ISO 32000 Annex D) -> text; None when a byte has no character"""
+    out = []
+    for c in b:
+        if c in (0x9F, 0xAD) or (c < 0x18 and c not in (9, 10, 13)) or c == 0x7F:
+            return None
+        out.append(chr(PDFDOC.get(c, c)))
+    return "".join(out)
+
+
 def json_compare(ef, objs, trailer):
     """qpdf JSON v2 -> pdfgen objects; text strings come back as ('ustr', text): compare those by their text"""
     A = plain_objs(ef)
@@ -901,10 +929,7 @@ def json_compare(ef, objs, trailer):
             if isinstance(ref, Str):
                 t = text_of(ref.b)
                 if t is None:
-                    try:
-                        t = ref.b.decode("latin-1")
-                    except Exception:
-                        t = None
+                    t = pdfdoc_text(ref.b)
                 if t == o[1]:
                     return Str(ref.b)
             return Str(b"<u:" + o[1].encode("utf-8") + b">")
